@@ -169,6 +169,17 @@ func (g *Gen) declare(t *Ty) {
 	})
 }
 
+// namedFields: the fields a program can refer to (blank fields `_` are skipped: Go's == ignores them as well)
+func namedFields(fs []Fld) []Fld {
+	var out []Fld
+	for _, f := range fs {
+		if f.Name != "_" {
+			out = append(out, f)
+		}
+	}
+	return out
+}
+
 func (g *Gen) Decls() string {
 	var sb strings.Builder
 	for _, n := range g.order {
@@ -274,7 +285,7 @@ func (g *Gen) RefEq(t *Ty) string {
 			break
 		}
 		var sb strings.Builder
-		for _, f := range u.Fields {
+		for _, f := range namedFields(u.Fields) {
 			fmt.Fprintf(&sb, "\tif !%s(a.%s, b.%s) {\n\t\treturn false\n\t}\n", g.RefEq(f.T), f.Name, f.Name)
 		}
 		sb.WriteString("\treturn true\n")
@@ -315,7 +326,7 @@ func (g *Gen) RefClone(t *Ty) string {
 	case "struct":
 		var sb strings.Builder
 		fmt.Fprintf(&sb, "\tvar out %s\n", t.Expr())
-		for _, f := range u.Fields {
+		for _, f := range namedFields(u.Fields) {
 			fmt.Fprintf(&sb, "\tout.%s = %s(a.%s)\n", f.Name, g.RefClone(f.T), f.Name)
 		}
 		sb.WriteString("\treturn out\n")
@@ -364,7 +375,7 @@ func (g *Gen) RefZClone(t *Ty) string {
 	case "struct":
 		var sb strings.Builder
 		fmt.Fprintf(&sb, "\tvar out %s\n", t.Expr())
-		for _, f := range u.Fields {
+		for _, f := range namedFields(u.Fields) {
 			fmt.Fprintf(&sb, "\tout.%s = %s(a.%s)\n", f.Name, g.RefZClone(f.T), f.Name)
 		}
 		sb.WriteString("\treturn out\n")
@@ -418,7 +429,7 @@ func (g *Gen) RefDiff(t *Ty) string {
 	case "struct":
 		var sb strings.Builder
 		sb.WriteString("\tn, s := 0, 0\n")
-		for _, f := range u.Fields {
+		for _, f := range namedFields(u.Fields) {
 			fmt.Fprintf(&sb, "\tif dn, ds := %s(a.%s, b.%s); dn != 0 {\n\t\tn += dn\n\t\ts = ds\n\t}\n", g.RefDiff(f.T), f.Name, f.Name)
 		}
 		sb.WriteString("\treturn n, s\n")
@@ -475,7 +486,7 @@ func (g *Gen) RefScramble(t *Ty) string {
 			g.RefScramble(u.Elem), u.Elem.Expr(), u.Key.Expr(), u.Key.Mangle())
 	case "struct":
 		var sb strings.Builder
-		for _, f := range u.Fields {
+		for _, f := range namedFields(u.Fields) {
 			fmt.Fprintf(&sb, "\t%s(&p.%s)\n", g.RefScramble(f.T), f.Name)
 		}
 		body = sb.String()
